@@ -8,11 +8,22 @@ use crate::tree::{pnum, Info, Profile, T};
 use crate::validate::{self, Contract};
 use serde_json::{json, Value};
 
+#[derive(Clone, Debug)]
+pub enum Op {
+    Truncate(f64),
+    Clone,
+    Reimport,
+    Evaluate,
+}
+
 pub struct Case {
     pub tree: T,
     pub family: &'static str,
     pub info: Info,
     pub prof: Profile,
+    /// operations applied to one Strategies object, which is re-evaluated after each
+    pub ops: Vec<Op>,
+    pub eval_first: bool,
 }
 
 pub fn decode(bytes: &[u8]) -> Case {
@@ -21,11 +32,24 @@ pub fn decode(bytes: &[u8]) -> Case {
     let g = gen_game(&mut s, &cfg);
     let info = Info::of(&g.tree);
     let prof = gen_profile(&mut h, &info);
+    // the history comes last in the head so that earlier decodings keep their meaning
+    let nops = if h.bool() { 1 + h.below(4) } else { 0 };
+    let eval_first = h.bool();
+    let ops = (0..nops)
+        .map(|_| match h.below(4) {
+            0 => Op::Evaluate,
+            1 => Op::Clone,
+            2 => Op::Reimport,
+            _ => Op::Truncate(h.unit()),
+        })
+        .collect();
     Case {
         tree: g.tree,
         family: g.family,
         info,
         prof,
+        ops,
+        eval_first,
     }
 }
 
@@ -51,10 +75,6 @@ fn has_nested(tree: &T) -> bool {
 
 /// compare the library's evaluation of `prof` with the oracles; shared with other properties
 pub fn compare_eval(id: &str, tree: &T, info: &Info, game: &glue::G, prof: &Profile) -> Result<oracle::Eval, Verdict> {
-    let eval = match oracle::evaluate(tree, info, prof, 400_000) {
-        Ok(e) => e,
-        Err(msg) => return Err(Verdict::fail(format!("{}/oracles-disagree", id), msg)),
-    };
     let strats = match glue::inject(game, info, prof) {
         Ok(s) => s,
         Err(e) => {
@@ -63,6 +83,22 @@ pub fn compare_eval(id: &str, tree: &T, info: &Info, game: &glue::G, prof: &Prof
                 format!("from_named rejected a valid profile: {:?}", e),
             ))
         }
+    };
+    compare_eval_of(id, tree, info, &strats, prof)
+}
+
+/// compare what `strats` reports about itself with the oracles' evaluation of `prof` (the dense
+/// profile the caller read from it or injected into it)
+pub fn compare_eval_of(
+    id: &str,
+    tree: &T,
+    info: &Info,
+    strats: &cfr::Strategies<'_, String, String>,
+    prof: &Profile,
+) -> Result<oracle::Eval, Verdict> {
+    let eval = match oracle::evaluate(tree, info, prof, 400_000) {
+        Ok(e) => e,
+        Err(msg) => return Err(Verdict::fail(format!("{}/oracles-disagree", id), msg)),
     };
     let got = strats.get_info();
     let tol = 1e-9 * oracle::scale_of(tree);
@@ -131,6 +167,56 @@ pub fn check(bytes: &[u8], _ctx: &Ctx) -> Verdict {
         Err(v) => return v,
     };
     let mut labels = vec![case.family];
+    // evaluation history: the same object is evaluated again after being cloned, truncated or
+    // re-imported; each report must be exact for the profile the object holds at that moment
+    if !case.ops.is_empty() {
+        let mut cur = match glue::inject(&game, &case.info, &case.prof) {
+            Ok(s) => s,
+            Err(e) => return Verdict::fail("C01/valid-profile-rejected", format!("{:?}", e)),
+        };
+        if case.eval_first {
+            let _ = cur.get_info();
+        }
+        for op in case.ops.iter() {
+            match op {
+                Op::Truncate(frac) => {
+                    // a threshold from the profile's own probabilities, so that something is cut
+                    let named = glue::read_named(&cur);
+                    let mut ps: Vec<f64> = named.iter().flat_map(|pl| pl.iter().flat_map(|(_, a)| a.iter().map(|(_, p)| *p))).filter(|p| *p < 1.0).collect();
+                    ps.sort_by(|a, b| a.partial_cmp(b).unwrap());
+                    let h = if ps.is_empty() { 0.25 } else { ps[((ps.len() - 1) as f64 * frac) as usize] };
+                    cur.truncate(h);
+                    labels.push("history-truncate");
+                }
+                Op::Clone => {
+                    cur = cur.clone();
+                    labels.push("history-clone");
+                }
+                Op::Reimport => {
+                    cur = match game.from_named(cur.as_named()) {
+                        Ok(c) => c,
+                        Err(e) => return Verdict::fail("C01/reimport-rejected", format!("{:?}", e)),
+                    };
+                    labels.push("history-reimport");
+                }
+                Op::Evaluate => {
+                    labels.push("history-evaluate");
+                }
+            }
+            let named = glue::read_named(&cur);
+            let now = match glue::to_profile(&case.info, &named) {
+                Ok(p) => p,
+                Err(m) => return Verdict::fail("C01/history/view-invalid", m),
+            };
+            if now.iter().any(|pl| pl.values().any(|v| !((v.iter().sum::<f64>() - 1.0).abs() < 1e-9))) {
+                // not a profile any more: C18's business, nothing to evaluate here
+                break;
+            }
+            if let Err(v) = compare_eval_of("C01/history", &case.tree, &case.info, &cur, &now) {
+                return v;
+            }
+        }
+    }
     if case.info.has_multinode_infoset() {
         labels.push("multi-node-infoset");
     }
@@ -164,7 +250,7 @@ pub fn check(bytes: &[u8], _ctx: &Ctx) -> Verdict {
 
 pub fn describe(bytes: &[u8]) -> Value {
     let case = decode(bytes);
-    json!({"family": case.family, "game": case.tree.brief(), "profile": crate::tree::profile_json(&case.prof)})
+    json!({"family": case.family, "game": case.tree.brief(), "profile": crate::tree::profile_json(&case.prof), "history": format!("{:?}", case.ops), "evaluated_before_history": case.eval_first})
 }
 
 pub fn prop() -> Prop {
@@ -172,10 +258,10 @@ pub fn prop() -> Prop {
         id: "C01",
         check,
         describe,
-        rule: "games from the observation-model generator and the structured families (matrix, chain, shared infoset, rare chance, dominated/duplicated actions, one player, no decision, Kuhn), with degenerate-node decoration, x generated behavioural profiles (uniform, pure, sparse with exact zeros, random, one tiny entry); oracle: path-enumeration utility and best response by exhaustive enumeration of pure strategies (cross-checked against a sequence-form best response; the latter alone on larger games). Non-trivial = some infoset has >= 2 nodes or a player has nested infosets, and some player's true regret is > 0; distinct by (tree, profile).",
+        rule: "games from the observation-model generator and the structured families (matrix, chain, shared infoset, rare chance, dominated/duplicated actions, one player, no decision, Kuhn), with degenerate-node decoration, x generated behavioural profiles (uniform, pure, sparse with exact zeros, random, one tiny entry); oracle: path-enumeration utility and best response by exhaustive enumeration of pure strategies (cross-checked against a sequence-form best response; the latter alone on larger games); in half the cases an evaluation history follows: 1-4 operations from {evaluate again, clone, re-import the named view, truncate at one of the profile's own probabilities} on one Strategies object, whose report after every step must be exact for the profile it then holds. Non-trivial = some infoset has >= 2 nodes or a player has nested infosets, and some player's true regret is > 0; distinct by (tree, profile).",
         max_len: 700,
-        cases_quick: 20_000,
-        cases_thorough: 1_000_000,
+        cases_quick: 400_000,
+        cases_thorough: 8_000_000,
         assumptions: &[
             "tolerance 1e-9 * max(1, max |payoff|)",
             "payoff and weight magnitudes within 1e-6 .. 1e6; trees of depth <= 200",
